@@ -259,12 +259,30 @@ def gen_case(streams, tier):
         mutators[kind] = mutators.get(kind, 0) + 1
         pool.append(t)
     entry = w.choice(["execute", "execute", "execute", "qnode"])
+    # a finite-shot sibling and analytic tapes DERIVED from already-built tape objects with
+    # tape.copy(shots=None) / tape.copy(trainable_params=...): the copy must get its own fingerprint
+    if w.random() < 0.3:
+        cands = [i for i, t in enumerate(pool) if all(m[0] in ("expval", "var", "probs") for m in t["mps"])]
+        if cands:
+            entry = "execute"
+            j = w.choice(cands)
+            pool.append(dict(pool[j], shots=w.choice([1, 3, 10]), trainable=None))
+            js = len(pool) - 1
+            pool.append(dict(pool[j], shots=None, trainable=None, derive={"from": js, "shots": None}))
+            mutators["derived_copy_shots"] = 1
+            if w.random() < 0.5:
+                npar = sum(len(leaf[2]) for _, leaf in _param_sites(pool[j]["ops"]))
+                tr = sorted(w.sample(range(npar), w.randint(0, npar))) if npar else []
+                pool.append(dict(pool[j], shots=None, trainable=tr, derive={"from": j, "trainable": tr}))
+                mutators["derived_copy_trainable"] = 1
     if store["kind"] == "true" and entry == "qnode":
         entry = "execute"  # cache=True builds a new cache per QNode call: nothing is shared
     calls = []
     for _ in range(w.randint(1, 4)):
         nt = 1 if entry == "qnode" else w.choice([1, 2, 2, 3, 4, 5, 6, 8])
-        calls.append({"tapes": [w.randrange(len(pool)) for _ in range(nt)]})
+        # recent pool entries (the near-duplicates and derived copies) are drawn more often
+        calls.append({"tapes": [(len(pool) - 1 - min(len(pool) - 1, int(w.expovariate(0.35))))
+                                if w.random() < 0.5 else w.randrange(len(pool)) for _ in range(nt)]})
     return {"n_wires": n, "store": store, "entry": entry, "pool": pool, "calls": calls,
             "mutators": mutators}
 
@@ -322,9 +340,28 @@ def run_case(case):
         cache = sc
     pressure_user = st["kind"] in ("lru", "random")
     pressure_own = st["kind"] == "true" and st["cachesize"] < 10000
-    dev = qp.device("default.qubit", wires=n)
-    ref_dev = qp.device("default.qubit", wires=n)
+    dev = qp.device("default.qubit", wires=n, seed=11)
+    ref_dev = qp.device("default.qubit", wires=n, seed=12)
     results_log = []
+    objs = {}
+
+    def tape_obj(i):
+        """Tape OBJECTS persist over the history (as a user's would): the fingerprint of a tape that was
+        executed before is memoised, and derived tapes are made from those objects with tape.copy()."""
+        if i not in objs:
+            spec = case["pool"][i]
+            d = spec.get("derive")
+            if d:
+                src = tape_obj(d["from"])
+                if "trainable" in d:
+                    objs[i] = src.copy(trainable_params=list(d["trainable"]))
+                else:
+                    objs[i] = src.copy(shots=d["shots"])
+            else:
+                objs[i] = qgen.build_tape(spec)
+        return objs[i]
+
+    has_shots = any(t.get("shots") for t in case["pool"])
     counters = {"calls": 0, "tapes": 0, "dups_in_batch": 0}
     for ci, call in enumerate(case["calls"]):
         specs = [case["pool"][i] for i in call["tapes"]]
@@ -348,7 +385,7 @@ def run_case(case):
             if case["entry"] == "qnode":
                 got = [_qnode_call(specs[0], dev, cache, cachesize)]
             else:
-                got = list(qp.execute([qgen.build_tape(s) for s in specs], dev, diff_method=None,
+                got = list(qp.execute([tape_obj(i) for i in call["tapes"]], dev, diff_method=None,
                                       cache=cache, cachesize=cachesize))
             got = qgen.to_jsonable(got)
         except Exception as e:  # noqa: BLE001 - observation
@@ -371,13 +408,15 @@ def run_case(case):
                                "detail": {"call": ci, "expected": len(ref), "observed": len(got)}})
             continue
         for ti, (g, r) in enumerate(zip(got, ref)):
+            if specs[ti].get("shots"):
+                continue  # finite-shot sibling: only there to share the cache, its samples are not compared
             if not _close(g, r):
                 # attribute: which other pool entry does the wrong value belong to?
                 owner = None
                 try:
                     allref = qgen.to_jsonable(list(qp.execute(
                         [qgen.build_tape(s) for s in case["pool"]], ref_dev, diff_method=None, cache=False)))
-                    owner = [j for j, rr in enumerate(allref) if _close(g, rr)]
+                    owner = [j for j, rr in enumerate(allref) if _close(g, rr) and not case["pool"][j].get("shots")]
                 except Exception:  # noqa: BLE001
                     pass
                 violations.append({
@@ -388,7 +427,7 @@ def run_case(case):
                                "value_belongs_to_pool_entries": owner,
                                "colliding_tapes": [case["pool"][j] for j in (owner or [])[:2]]}})
                 break
-    if sc is not None and sc.collisions:
+    if sc is not None and sc.collisions and not has_shots:
         violations.append({"klass": "cache_key_collision", "sig": {"store": st["kind"]},
                            "detail": {"keys_with_two_values": len(sc.collisions)}})
     if sc is not None:
